@@ -210,7 +210,8 @@ Fixpoint eval_const (cenv : cenv) (e : pexpr) {struct e} : cres :=
 
 (* ---- the same evaluator, instrumented with the primitive operations it performs ---- *)
 Inductive prim :=
-| PArith (op : binop)      (* ops[opcls](a, b) or str + str, on two already evaluated values *)
+| PArith (op : binop)      (* ops[opcls](a, b) on two already evaluated numbers *)
+| PConcat                  (* a + b on two already evaluated strings *)
 | PNeg                     (* -v *)
 | PCast (f : ident)        (* _SAFE_CASTS[f](inner) *)
 | PStr                     (* str(...) of an f-string part *)
@@ -234,8 +235,8 @@ Definition after {A} (p : prim) (m : fx A) : fx A := let (r, t) := m in (r, p ::
 
 Definition apply_bin_fx (op : binop) (a b : pval) : fx pval :=
   (apply_bin op a b,
-   if (match op with Add => is_strv a && is_strv b | _ => false end) || (is_numv a && is_numv b)
-   then [PArith op] else []).
+   if (match op with Add => is_strv a && is_strv b | _ => false end) then [PConcat]
+   else if is_numv a && is_numv b then [PArith op] else []).
 Definition un_step_fx (op : unop) (v : pval) : fx pval :=
   (un_step op v, match op with USub => [PNeg] | Not => [PTruth] | _ => [] end).
 Definition cmp_step_fx (op : cmpop) (l r : pval) : fx bool :=
